@@ -296,7 +296,7 @@ func ruleMakeSizes(rule string) func(*Ctx) {
 				}
 			}
 		}
-		c.floor(rule, n, 25)
+		c.floor(rule, n, 10) // an inventory of hazards: fewer is fine; the floor only guards against a blind detector
 	}
 }
 
@@ -371,7 +371,7 @@ func ruleDivisors(rule string) func(*Ctx) {
 				}
 			}
 		}
-		c.floor(rule, n, 5)
+		c.floor(rule, n, 2)
 	}
 }
 
@@ -410,7 +410,7 @@ func rulePanics(rule string) func(*Ctx) {
 				}
 			}
 		}
-		c.floor(rule, n, 6)
+		c.floor(rule, n, 1)
 	}
 }
 
@@ -695,7 +695,7 @@ func ruleConstIndex(rule string, reviewed map[string]string) func(*Ctx) {
 					"an index past the end panics: empty and one-point paths are in the property's domain (InflatePaths64({{}},10,Miter,Butt) panicked on path[0])")
 			}
 		}
-		c.floor(rule, n, 10)
+		c.floor(rule, n, 4)
 	}
 }
 
